@@ -71,6 +71,11 @@ inductive Stmt where
   | case_ (u : Nat)
   /-- `default:` -/
   | default_
+  /-- `[x =] f(args);` — a direct call as a statement (`EXPRCALL`, under `EXPRASSIGN` and a cast to the type
+      of `x` when the result is used): `rt` the return type of `f`, `args` already converted to the
+      parameter types.  It has a meaning only in a program (`Model/CSem3.lean`); `exec` below, the
+      semantics of a single function, gives it none. -/
+  | call (dst : Option (Nat × Ty)) (rt : Ty) (fn : String) (args : List Expr)
   deriving Repr, Inhabited
 
 inductive Outcome where
@@ -188,6 +193,7 @@ def exec (cs : Bool) : Nat → Store → Stmt → Option Outcome
   | _ + 1, s, .continue_ => some (.cont s)
   | _ + 1, s, .case_ _ => some (.normal s)
   | _ + 1, s, .default_ => some (.normal s)
+  | _ + 1, _, .call .. => none
   | n + 1, s, .switch_ e b =>
     (evalE cs s e).bind fun v =>
       match pick cs e.ty v b with
@@ -263,6 +269,11 @@ def countDefault : Stmt → Nat
   | .seq a b => countDefault a + countDefault b
   | _ => 0
 
+/-- the variable a call result is assigned to is declared, with the given type -/
+def dstOK (vtys : List Ty) (nd : Nat) : Option (Nat × Ty) → Bool
+  | none => true
+  | some (i, t) => decide (i < nd) && (vtys[i]? == some t)
+
 /-- Well-formedness of a statement in a function with variable types `vtys` and return type `ret`
     when `nd` variables have been declared so far; result: the number declared afterwards.
     * variables are used after their declaration and with their declared type (`Expr.wt` against
@@ -325,6 +336,8 @@ def Stmt.wt (vtys : List Ty) (ret : Ty) : Bool → Bool → Nat → Stmt → Opt
     else none
   | _, _, nd, .case_ _ => some nd
   | _, _, nd, .default_ => some nd
+  | _, _, nd, .call dst _ _ args =>
+    if args.all (fun e => e.wt (vtys.take nd)) = true ∧ dstOK vtys nd dst = true then some nd else none
 
 def Func.wt (f : Func) : Bool :=
   f.body.labelFree && Stmt.wt f.vtys f.ret false false f.params.length f.body == some f.vtys.length
